@@ -15,9 +15,13 @@ the "Type parsers" of `parser.rs` and of the type printer of `format.rs`; lemmas
   d3_dea6b02_only_rule_breaks_roundtrip                     the dea6b02-only printing rule breaks T2 (D3)
   d1_old_print_rule_breaks_roundtrip                        the pre-dea6b02 printing rule breaks T2
   print_idempotent (= PrintIdempotentStatement, FULL), print_idempotent_partial   (T3)
+  alias_statement_layouts, alias_statement_roundtrip (= AliasRoundTripStatement, FULL),
+  alias_statement_program, alias_parse_format_parse, alias_format_idempotent
+                                                            the alias STATEMENT through format_program
 -/
 import QuiverModel.Lemmas.Parse.Factored
 import QuiverModel.Lemmas.Parse.Receive
+import QuiverModel.Lemmas.Parse.AliasText
 import QuiverModel.Lemmas.Parse.WF
 import QuiverModel.Lemmas.Text.Basic
 namespace C18Types
@@ -433,5 +437,83 @@ theorem print_idempotent : PrintIdempotentStatement :=
 
 example : ∀ t' rest, parseType (printTy exampleTy) = .ok t' rest → printTy t' = printTy exampleTy :=
   fun t' rest => print_idempotent_partial exampleTy (by decide +kernel) (by decide +kernel) t' rest
+
+/-! ## The alias STATEMENT through `format_program`
+
+`fmtAlias a` is `format_program` on the program that consists of the alias `a` (no trivia): the `Doc`
+of `statement_doc` — for a union right-hand side `union_alias_doc`, a group of `line`, `| ` (the first
+one only `if_break`) and the member — laid out by the engine of `pretty.rs` at width 100
+(`QM.Text.print`, the model C17 is about), then `collapse_blanks` and `expand_literals`. -/
+
+/-- the full statement (PROVED below: `alias_statement_roundtrip`) -/
+def AliasRoundTripStatement : Prop :=
+  ∀ a : Alias, a.wf = true → typeAlias (fmtAlias a) = .ok a ['\n']
+
+/-- **alias_statement_layouts**: the formatted statement is one of two explicit texts — the flat line
+    `'name<'a> = type`, or, only when the right-hand side is a union, the broken layout
+    `'name<'a> =⏎  | m1⏎  | m2 …` — followed by one newline. Nothing else can come out of the engine
+    and the two post-passes (they change nothing: no line of these texts ends in white space, is
+    blank, or starts with the NUL of a literal placeholder — `goodS_printTy`). -/
+theorem alias_statement_layouts (a : Alias) (hw : a.wf = true) :
+    fmtAlias a = printAlias a ++ ['\n'] ∨
+    ∃ ts, a.ty = .union ts ∧ fmtAlias a = brokenAlias a.name a.params ts ++ ['\n'] :=
+  fmtAlias_text a hw
+
+/-- **alias_statement_roundtrip** (FULL = `AliasRoundTripStatement`): for EVERY well-formed alias
+    (`Alias.wf`, decidable; every alias the parser returns satisfies it: `typeAlias_wf`), `type_alias`
+    — over the grammar of the code, `parseTypeG` — reads the text `format_program` prints back to
+    exactly the same alias and stops exactly at the final newline. Whatever layout the engine
+    chose. -/
+theorem alias_statement_roundtrip : AliasRoundTripStatement := by
+  intro a hw
+  rcases fmtAlias_text a hw with h | ⟨ts, hty, h⟩
+  · rw [h]; exact typeAlias_flat a hw _ (by decide)
+  · obtain ⟨name, ps, ty⟩ := a
+    simp only at hty
+    subst hty
+    rw [h]
+    exact typeAlias_broken name ps ts hw _ (by decide)
+
+/-- … so `parse` of the formatted text is `Ok` with exactly this one statement (as far as the alias
+    grammar decides `program`: the alias, the separator `\n`, end of input) -/
+theorem alias_statement_program (a : Alias) (hw : a.wf = true) :
+    programVerdict (fmtAlias a) = .aliasOnly a := by
+  obtain ⟨s, hs⟩ := fmtAlias_quote a hw
+  have h := alias_statement_roundtrip a hw
+  have h0 : skipWsc false (fmtAlias a) = fmtAlias a := by
+    rw [hs]; exact skipWsc_of_head (by simp [headAll, isMultispace])
+  have hsep : seqSep ['\n'] = .ok () [] := by
+    have h1 : QM.Parse.isHspace '\n' = false := by decide
+    simp [seqSep, skipHspaceComments, h1, alt, pchar, lineEnding, skipSepTail]
+  unfold programVerdict
+  simp only [h0, h, hsep]
+  rfl
+
+/-- parse ∘ format ∘ parse = parse on alias statements -/
+theorem alias_parse_format_parse (i : Str) (a : Alias) (r : Str) (h : typeAlias i = .ok a r) :
+    typeAlias (fmtAlias a) = .ok a ['\n'] :=
+  alias_statement_roundtrip a (typeAlias_wf i a r h)
+
+/-- formatting what was read from a formatted alias gives the same text -/
+theorem alias_format_idempotent (a : Alias) (hw : a.wf = true) (b : Alias) (r : Str)
+    (h : typeAlias (fmtAlias a) = .ok b r) : fmtAlias b = fmtAlias a := by
+  rw [alias_statement_roundtrip a hw] at h
+  injection h with h1 _
+  rw [← h1]
+
+/-- the two layouts of `'t<'a> = A[x: 'a] | #'a -> 'int | ^` -/
+def exampleAlias : Alias :=
+  ⟨some "t".toList, ["a".toList],
+    .union [.tuple (some "A".toList) [.field (some "x".toList) (.ident "a".toList [])] false,
+            .func (.ident "a".toList []) (.prim .int), .cycle none]⟩
+
+example : exampleAlias.wf = true := by decide +kernel
+example : printAlias exampleAlias = "'t<'a> = A[x: 'a] | (#'a -> 'int) | ^".toList := by decide +kernel
+example : brokenAlias exampleAlias.name exampleAlias.params
+      [.tuple (some "A".toList) [.field (some "x".toList) (.ident "a".toList [])] false,
+       .func (.ident "a".toList []) (.prim .int), .cycle none] =
+    "'t<'a> =\n  | A[x: 'a]\n  | (#'a -> 'int)\n  | ^".toList := by decide +kernel
+example : typeAlias (fmtAlias exampleAlias) = .ok exampleAlias ['\n'] :=
+  alias_statement_roundtrip exampleAlias (by decide +kernel)
 
 end C18Types
